@@ -8,8 +8,10 @@
 //! Exit codes: 0 held, 1 violation (with `VIOLATION property=<id> replay=<path>`), 2 harness error.
 
 mod audit;
+mod corrupt;
 mod crash;
 mod engine;
+mod fault;
 mod gen;
 mod model;
 mod pool;
